@@ -265,9 +265,9 @@ Section OopProofs.
   Qed.
 
   (* reading: the write is finished first, the data are the abstraction *)
-  Theorem oop_get_correct st n : oop_ok st ->
-    snd (oop_get chunk st n) = firstn n (oop_abs st) /\
-    oop_abs (fst (oop_get chunk st n)) = oop_abs st /\ oop_ok (fst (oop_get chunk st n)).
+  Theorem oop_get_correct st p n : oop_ok st ->
+    snd (oop_get chunk st p n) = firstn n (skipn p (oop_abs st)) /\
+    oop_abs (fst (oop_get chunk st p n)) = oop_abs st /\ oop_ok (fst (oop_get chunk st p n)).
   Proof.
     intros OK. unfold oop_get. cbn [fst snd]. destruct (oop_flush_ok st OK) as [A K].
     destruct OK as [I E]. destruct (oop_finish_abs st I) as [F1 F2].
